@@ -69,6 +69,13 @@ func TestVerifReplayModel(t *testing.T) {
 			_, _, _ = sd.parseStructuredData(data)
 			_ = sd.validateTimestamp(in.bytes("ts"))
 		}
+	case "jsonCutLen":
+		str := string(in.bytes("s"))
+		limit, _ := strconv.Atoi(in.Inputs["limit"])
+		r := jsonCutLen(str, limit)
+		if r < 0 || r > len(str) || (limit >= 0 && r > limit) || (limit < 0 && r != 0) {
+			t.Errorf("REPLAY-FAIL jsonCutLen(%q, %d) = %d: outside the string or over the limit", str, limit, r)
+		}
 	case "(*CSVDecoder).Decode":
 		d, _ := NewCSVDecoder(nil)
 		if v, err := strconv.Atoi(in.Inputs["d.params.delimiter"]); err == nil {
